@@ -268,8 +268,16 @@ func genRandom(t *rapid.T) Case {
 			stream = append(stream, rapid.SliceOfN(rapid.ByteRange(0, 127), 0, 9).Draw(t, "runData")...)
 		case 5: // undefined and lonely bytes
 			stream = append(stream, rapid.SliceOfN(rapid.SampledFrom([]byte{0xF4, 0xF5, 0xF7, 0xF9, 0xFD, 0xF1, 0xF2, 0xF3, 0xF6, 0x00, 0x7F}), 1, 6).Draw(t, "odd")...)
-		default: // a well formed message
-			stream = append(stream, wellFormed(t, buf)...)
+		default: // a well formed message, now and then repeated with the same data bytes on other channels
+			m := wellFormed(t, buf)
+			stream = append(stream, m...)
+			if m[0] < 0xF0 && rapid.IntRange(0, 3).Draw(t, "sameOnOtherChannels?") == 0 {
+				for k := rapid.IntRange(1, 3).Draw(t, "nCopies"); k > 0; k-- {
+					cp := append([]byte{}, m...)
+					cp[0] = m[0]&0xF0 | byte(rapid.IntRange(0, 15).Draw(t, "otherChannel"))
+					stream = append(stream, cp...)
+				}
+			}
 		}
 	}
 	if rapid.Bool().Draw(t, "suffix?") {
@@ -312,7 +320,7 @@ func wellFormed(t *rapid.T, buf int) []byte {
 }
 
 var random = ev.NewCheck("C06", "random-streams",
-	"rapid: streams of up to ~4000 bytes built from segments (uniform random bytes over all 256 values, status-heavy noise, sysex of buffer size -3..+70 terminated or not and with real-time inside, running-status runs, undefined/unpaired bytes, well-formed messages), optionally followed by a well-formed suffix of 1..6 messages starting with an explicit non-real-time status; buffer sizes 3,4,8,64,1024; chunked as one call / byte-wise / random pieces; both observation points; in one case of four an earlier listening on the same port was left in the middle of a message (listen - stop - listen again must start with a fresh decoder); oracle = reference receiver (F9/FD don't-care), well-formedness, suffix decoded exactly; non-trivial as above; distinct by stream+chunking hash",
+	"rapid: streams of up to ~4000 bytes built from segments (uniform random bytes over all 256 values, status-heavy noise, sysex of buffer size -3..+70 terminated or not and with real-time inside, running-status runs, undefined/unpaired bytes, well-formed messages, one in four of them repeated with the same data bytes on other channels), optionally followed by a well-formed suffix of 1..6 messages starting with an explicit non-real-time status; buffer sizes 3,4,8,64,1024; chunked as one call / byte-wise / random pieces; both observation points; in one case of four an earlier listening on the same port was left in the middle of a message (listen - stop - listen again must start with a fresh decoder); oracle = reference receiver (F9/FD don't-care), well-formedness, suffix decoded exactly; non-trivial as above; distinct by stream+chunking hash",
 	genRandom, run)
 
 func TestPropRandomStreams(t *testing.T) { random.Rapid(t, 3000, 10000) }
